@@ -127,6 +127,12 @@ func targetsToRemove(graph *core.BuildGraph, filter, targets, targetsToKeep []co
 		for _, src := range target.AllLocalSourcePaths() {
 			keepSrcs[src] = true
 		}
+		// Files that are only data for something we keep are still used by it.
+		for _, datum := range target.AllData() {
+			if file, ok := datum.(core.FileLabel); ok {
+				keepSrcs[file.Paths(nil)[0]] = true
+			}
+		}
 	}
 	ret := make(core.BuildLabels, 0, len(keepTargets))
 	retSrcs := []string{}
